@@ -358,7 +358,18 @@ void Ctx::c10() {
     }
     // (d) rotation over the broker list and pauses
     int n = (int)s.plan.knobs.hosts.size();
-    auto& rl = s.resolver.log;
+    // A resolution issued by a service object OLDER than one that has already resolved belongs to a service that is winding down
+    // (cancel()/async_disconnect replaced it; resolve_op does not look at is_open(), so its reconnect loop may start one more
+    // resolution when a slow one finally completes). It is no part of the running service's rotation: left out.
+    std::vector<sim::ResolveRec> rl;
+    {
+        int newest = -1;
+        for (auto& r : s.resolver.log) {
+            if (r.inst >= 0 && r.inst < newest) continue;
+            newest = std::max(newest, r.inst);
+            rl.push_back(r);
+        }
+    }
     auto conns_of = [&](size_t i) {
         std::vector<int> v;
         uint64_t from = rl[i].seq_done ? rl[i].seq_done : rl[i].seq, to = i + 1 < rl.size() ? rl[i + 1].seq : UINT64_MAX;
